@@ -2,6 +2,7 @@
 C05 — Cash and shares are conserved; holdings equal endowment plus own fills.
 -/
 import PamsModel.Ledger
+import PamsLemmas.SourceTie
 import PamsLemmas.RunnerLemmas
 import Mathlib.Algebra.Group.Basic
 import Mathlib.Algebra.BigOperators.Group.List.Basic
@@ -181,5 +182,17 @@ def f0 : LFill Int := { buyer := 1, seller := 2, market := 0, amount := 300, vol
 theorem nonvacuous : (apply1 b0 f0).cash 1 = 700 ∧ (apply1 b0 f0).cash 2 = 1300 ∧
     (apply1 b0 f0).shares 1 0 = 53 ∧ (apply1 b0 f0).shares 2 0 = 47 ∧ (apply1 b0 f0).shares 2 1 = 50 := by
   decide
+
+/-- (T) in the current sources, on every path of the request loop on which a round runs, the ledger
+update is called exactly once, outside the per-fill loop and before the first notification -/
+theorem source_ledger_once_before_notifications :
+    ∀ x ∈ PamsGen.requestPaths, x.2.2.1 = true →
+      x.2.2.2.count "_update_agents_for_execution" = 1 ∧
+      x.2.2.2.idxOf "_update_agents_for_execution" < x.2.2.2.idxOf "for[" ∧
+      x.2.2.2.idxOf "for[" < x.2.2.2.idxOf "executed_order" := by decide
+
+/-- … and on the paths without a round it is not called at all -/
+theorem source_no_ledger_without_round :
+    ∀ x ∈ PamsGen.requestPaths, x.2.2.1 = false → x.2.2.2.count "_update_agents_for_execution" = 0 := by decide
 
 end Pams.C05
